@@ -140,11 +140,11 @@ def check_decode_number(utils, sig, rep, tier):
     else:
         claim = z3.Implies(z3.Not(sent), z3.Not(none_c))
     st, m = prove(claim, label="B1 none-rule " + tag)
-    results.append(("none-rule", st, m and m.eval(x, True).as_long()))
+    results.append(("none-rule", st, (m.eval(x, True).as_long() if st == "sat" else None)))
     # B3: no spurious failure: raw in DB range (exact integer condition) => no raise   [exact binary64]
     inr = z3.And(in_range_bv(sig, x), z3.Not(sent)) if not sig.sentinel_in_range() else in_range_bv(sig, x)
     st, m = prove(z3.Not(rc), [inr], label="B3 in-range-accepted " + tag, timeout_ms=120000 if tier == "thorough" else 60000)
-    results.append(("in-range-rejected", st, m and m.eval(x, True).as_long()))
+    results.append(("in-range-rejected", st, (m.eval(x, True).as_long() if st == "sat" else None)))
     # B2: value = raw*Resolution + Offset to within binary64 rounding   [rounding-error model]
     with real_context() as c:
         xi = z3.Int("xi")
@@ -159,7 +159,7 @@ def check_decode_number(utils, sig, rep, tier):
         mag = z3.If(exact >= 0, exact, -exact) + rv(abs(sig.offset))
         claim = z3.And(vt - exact <= rv(TOL) * mag, exact - vt <= rv(TOL) * mag)
         st, m = prove(claim, dom + [z3.Not(nz), z3.Not(rcz)], label="B2 value " + tag)
-        results.append(("value", st, m and m.eval(xi, True).as_long()))
+        results.append(("value", st, (m.eval(xi, True).as_long() if st == "sat" else None)))
     return results
 
 
